@@ -129,7 +129,7 @@ PROPS = {
         "technique": "deterministic simulation with fault injection (server-side page scripts: seeded page splits, paging states and per-page faults; consumer behaviours)",
         "rule": "each run = 1..5 unsharded nodes, 1..5 paged queries (query_iter unprepared / execute_iter prepared, idempotent, Default retry policy 3/4 or Fallthrough) over result sets of 0..200 uniquely numbered rows which the mock splits by a seeded page-size sequence (empty pages anywhere, whole-rest pages, trailing empty pages, <= 40 pages) with random paging-state byte strings; per page request the tape may inject a retryable error (Overloaded/IsBootstrapping/ServerError), a non-retryable error (Invalid/Syntax), a connection reset instead of the answer, an UNPREPARED answer (statement evicted between two pages; the repeated request must carry the same paging state), or a delay of seconds; request timeout none / 2 s / 5 s / 30 s per page request; consumers: eager, slow (sleeps between rows), stalled for 1..4 s at a chosen row (longer than the request timeout while the worker is blocked handing over a page), early drop after k rows; system tables are served to the control-connection pager in pages of 1..3 rows. Non-trivial = at least one query needed more than one page request. Distinct = distinct (poll-sequence hash, event-log hash).",
         "assumptions": COMMON_ASSUMPTIONS + [
-            "oracles: (a) rows seen are always a prefix of the server's rows in order; on normal end they are all rows and the last page was delivered; (b) from the server's history: first request carries no paging state, each further one asks for the same page only after a failed attempt at it, or for the next page only after the current one was delivered; a state the server never issued or a request beyond the last page is a violation; (c) when the stream fails, exactly the rows of the pages before the failed page were seen; (d) after an early drop at most 2 further distinct pages are requested; control-connection pager: published topology has every node once",
+            "oracles: (a) rows seen are always a prefix of the server's rows in order; on normal end they are all rows and the last page was delivered; (b) from the server's history: first request carries no paging state, each further one asks for the same page only after a failed attempt at it, or for the next page only after the current one was delivered; a state the server never issued or a request beyond the last page is a violation; (c) when the stream fails, exactly the rows of the pages before the failed page were seen; (d) page requests after an early drop are counted, not judged (prefetch depth is not part of the property); control-connection pager: published topology has every node once",
             "1 in 4 runs add speculative execution (max 1..2 copies, interval 20/50/200 ms) to the idempotent page requests; there the page-request chain is judged by time, because copies travel to different nodes and arrival order is not sending order: a request for page p is legal until 20 virtual ms (a round trip) after the first successful answer for p, with at most 1 + max copies outstanding, and only after page p-1 was answered successfully; the row oracles (a), (c) are unchanged",
         ],
         "expected_probes": ["page_requests", "page_faults", "Rst", "speculative_runs"],
@@ -179,7 +179,7 @@ PROPS = {
         "rule": "part C15e (engine A, end-to-end): 2..5 nodes x 1..4 shards, a tablet keyspace whose server-side layout (1..8 tablets over the whole ring, rf 1..3, replicas = (node, shard)) is changed 0..5 times during the run (tablet moved, split, merged with its neighbour, or the boundary to its neighbour shifted by exactly one token in either direction so that the new tablet overlaps a known one in one token); 1 in 3 runs a spare node joins the ring mid-run (with or without NEW_NODE event) and becomes a tablet replica before the client knows it (tablets learnt with an unknown replica; a final refresh must resolve them to the full replica list); 10..80 sequential executions of a prepared statement over a small key pool; the mock attaches a tablets-routing-v1 payload exactly when the request reached a non-replica node/shard (as ScyllaDB does) and keeps the reference model of what it has sent (insert = delete overlapping, then add); optionally a node is removed (REMOVED_NODE event) at the end. Non-trivial = at least one payload was sent. Distinct = distinct (poll-sequence hash, event-log hash). Part C15d (hsim, direct history driver over the real TabletsInfo/TableTablets/RawTablet::from_custom_payload through a wrapper): histories of <= 12 steps over a 16-token universe (quick) and up to 200 steps over full i64 (thorough): insert(range, replicas incl. unknown host ids) with every overlap relation (before, adjacent, overlapping left/right, containing, contained, equal, ending at i64::MAX, starting at i64::MIN), rejected payloads (last <= first), and maintenance steps (nodes removed, nodes re-created as new Node objects incl. datacenter change, unknown replicas resolvable or not, table dropped / keyspace no longer tablet-based, second table); after EVERY step every token of the universe is looked up and compared with a plain-vector reference model (oracles c15.lookup, c15.sorted_disjoint, c15.dc_restriction, c15.dc_restriction_dc_change, c15.stale_node, c15.rejected_payload, c15.panic_reresolve_recreated).",
         "assumptions": COMMON_ASSUMPTIONS + [
             "oracles: (1) a request whose token is covered by a tablet the client had learnt before it was submitted goes to a replica node of that tablet and, when the mock sees a pool connection to that shard, on the tablet's shard; (2) after quiescence ClusterState::get_token_endpoints at every boundary +-1 of every sent or server-side tablet and at the extremes equals the reference model (replica host ids and shards in order; nothing where nothing is known or where a later tablet overlapped or the removed node was a replica)",
-            "requests are sequential so that 'most recently learnt' is well defined; feedback is given 20 virtual ms to be applied by the cluster worker",
+            "requests are sequential so that 'most recently learnt' is well defined; routing is judged only for requests submitted while the client's published state (ClusterState::get_token_endpoints for the request's token) equals the tablet the model says was learnt - feedback is applied asynchronously; that it is applied at all is decided by the lookup oracle after quiescence",
         ],
         "expected_probes": ["tablet_payload_sent", "routing_checked", "lookups_checked"],
     },
